@@ -314,16 +314,23 @@ func coqGval(v reflect.Value) string {
 }
 
 // values read through unexported fields cannot be Interface()d; copy them out
-func accessible(v reflect.Value) reflect.Value {
+func accessible(v reflect.Value) (out reflect.Value) {
 	if v.CanInterface() {
 		return v
 	}
 	if v.CanAddr() {
 		return reflect.NewAt(v.Type(), v.Addr().UnsafePointer()).Elem()
 	}
+	// not addressable and not interfaceable (a field of a non-addressable struct): zero value of the type
+	return reflect.New(v.Type()).Elem()
+}
+
+// an addressable copy of a struct value (so that its unexported fields can be read)
+func addressable(v reflect.Value) reflect.Value {
+	if v.CanAddr() || !v.CanInterface() {
+		return v
+	}
 	c := reflect.New(v.Type()).Elem()
-	// not addressable and not interfaceable: only reachable for fields of non-addressable structs
-	defer func() { recover() }()
 	c.Set(v)
 	return c
 }
@@ -538,8 +545,8 @@ func randGoValue(r *rand.Rand, t reflect.Type, depth int) reflect.Value {
 		n := r.Intn(4)
 		for i := 0; i < n; i++ {
 			k := randGoValue(r, t.Key(), 1)
-			if hasNaNOrNilKey(k) {
-				continue
+			if hasNaNOrNilKey(k) || !selfEqual(k) {
+				continue // keys that are not equal to themselves (NaN somewhere inside) cannot be looked up again
 			}
 			m.SetMapIndex(k, randGoValue(r, t.Elem(), depth-1))
 		}
@@ -562,7 +569,9 @@ func randGoValue(r *rand.Rand, t reflect.Type, depth int) reflect.Value {
 	case reflect.Interface:
 		v.Set(randAnyValue(r, depth))
 	case reflect.Func:
-		if r.Intn(5) == 0 {
+		if t.NumOut() == 0 && r.Intn(3) == 0 {
+			// a nil func is only in the round-trip domain when it returns nothing: it marshals to the
+			// empty tuple, and tuple funcs are compared by the values they return
 			return v
 		}
 		var outs []reflect.Value
@@ -572,6 +581,15 @@ func randGoValue(r *rand.Rand, t reflect.Type, depth int) reflect.Value {
 		v.Set(reflect.MakeFunc(t, func([]reflect.Value) []reflect.Value { return outs }))
 	}
 	return v
+}
+
+func selfEqual(k reflect.Value) (ok bool) {
+	defer func() {
+		if recover() != nil {
+			ok = false
+		}
+	}()
+	return k.Interface() == k.Interface()
 }
 
 // map keys that marshal to NaN / Nil / nothing are rejected by design (BadMapKey); excluded from
